@@ -46,6 +46,7 @@ import (
 	"github.com/ozontech/seq-db/node"
 	"github.com/ozontech/seq-db/parser"
 	"github.com/ozontech/seq-db/proxyapi"
+	seqproxyapi "github.com/ozontech/seq-db/pkg/seqproxyapi/v1"
 	pbstore "github.com/ozontech/seq-db/pkg/storeapi"
 	psearch "github.com/ozontech/seq-db/proxy/search"
 	"github.com/ozontech/seq-db/seq"
@@ -986,9 +987,13 @@ func buildIndex(docs []doc, tidOff int) *fakeIndex {
 			}
 		}
 	}
-	for i, d := range docs {
-		if d.match {
-			addTok("q", "1", uint32(i+1))
+	// the query leaf is a multi-token one (a wildcard / in-list: BuildORTree over nodeOr) whose posting lists
+	// OVERLAP: a matching document carries a non-empty subset of the tokens q1..q3; the matching set is their union
+	for b, v := range []string{"1", "2", "3"} {
+		for i, d := range docs {
+			if d.match && (1+(uint64(i)*7+d.mid)%7)&(1<<uint(b)) != 0 {
+				addTok("q", v, uint32(i+1))
+			}
 		}
 	}
 	return ix
@@ -1450,7 +1455,14 @@ func expectedBuckets(fracs [][]doc, a aggq, skip bool) string {
 	return expectedBucketsX(fracs, a, skip, false)
 }
 
+// expectedBucketsF: values rendered as floats (what a client of the public API sees), avg included
+func expectedBucketsF(fracs [][]doc, a aggq, skip bool) string { return expectedBucketsY(fracs, a, skip, false, true) }
+
 func expectedBucketsX(fracs [][]doc, a aggq, skip bool, asFound bool) string {
+	return expectedBucketsY(fracs, a, skip, asFound, false)
+}
+
+func expectedBucketsY(fracs [][]doc, a aggq, skip bool, asFound bool, floats bool) string {
 	stats, ne := expected(fracs, a, asFound)
 	type bk struct {
 		mid   uint64
@@ -1500,6 +1512,9 @@ func expectedBucketsX(fracs [][]doc, a aggq, skip bool, asFound bool) string {
 					b.vstr = strconv.FormatInt(int64(sum)/g, 10)
 				} else {
 					b.vstr = fmt.Sprintf("%d/%d", int64(sum)/g, int64(n)/g)
+				}
+				if floats {
+					b.vstr = fvalue(b.value, nil)
 				}
 			case "quantile":
 				for _, q := range a.qs {
@@ -1692,7 +1707,7 @@ func genSys(r *vh.RNG, maxDocs int) sysCase {
 
 // ------------------------------------------------------------------ oracle agg.e2e (child process)
 
-const e2eRule = "on the implementation only, end to end: real stores (1-3 shards, active and sealed fractions, whole time axis and restricted time ranges in which some group / field tokens do not occur, without and with the production default aggregation limits, synchronous and asynchronous searches) behind the real proxy search ingestor (setup.TestingEnv: bulk over HTTP, search over gRPC incl. buildSearchResponse/responseToQPR and the proxy-side MergeQPRs), Aggregate as proxyapi calls it == buckets computed directly from the ingested documents; histogram == per-bucket document counts; non-trivial = >= 2 fractions or shards and >= 3 matching documents"
+const e2eRule = "on the implementation only, end to end: real stores (1-3 shards, active and sealed fractions, whole time axis and restricted time ranges in which some group / field tokens do not occur, without and with the production default aggregation limits, synchronous and asynchronous searches, `or` queries with overlapping operands and a wildcard leaf, and requests with several mixed aggregations through the public handlers proxyapi ComplexSearch / GetAggregation / GetHistogram) behind the real proxy search ingestor (setup.TestingEnv: bulk over HTTP, search over gRPC incl. buildSearchResponse/responseToQPR and the proxy-side MergeQPRs), Aggregate as proxyapi calls it == buckets computed directly from the ingested documents; histogram == per-bucket document counts; non-trivial = >= 2 fractions or shards and >= 3 matching documents"
 
 func bulkPost(addr string, docs []string) error {
 	b := bytes.NewBuffer(nil)
@@ -1711,6 +1726,155 @@ func bulkPost(addr string, docs []string) error {
 	return nil
 }
 
+const e2eQuery = "m:1 or n:a*"
+
+// apiReq: one request through the proxy's public gRPC handlers (proxyapi.grpcV1: ComplexSearch / GetAggregation /
+// GetHistogram) with SEVERAL aggregations, with and without a time interval, in one request.
+type apiReq struct {
+	kind     string // complex | getagg | gethist
+	aggs     []aggq
+	hist     uint64
+	order    seq.DocsOrder
+	from, to uint64
+}
+
+func (r apiReq) String() string {
+	var as []string
+	for _, a := range r.aggs {
+		as = append(as, a.String())
+	}
+	return fmt.Sprintf("%s aggs=%s hist=%d order=%d range=%d-%d", r.kind, vh.JoinStrs(as, ";"), r.hist, r.order, r.from, r.to)
+}
+
+var apiFuncs = map[string]seqproxyapi.AggFunc{"count": seqproxyapi.AggFunc_AGG_FUNC_COUNT, "sum": seqproxyapi.AggFunc_AGG_FUNC_SUM,
+	"min": seqproxyapi.AggFunc_AGG_FUNC_MIN, "max": seqproxyapi.AggFunc_AGG_FUNC_MAX, "avg": seqproxyapi.AggFunc_AGG_FUNC_AVG,
+	"quantile": seqproxyapi.AggFunc_AGG_FUNC_QUANTILE, "unique": seqproxyapi.AggFunc_AGG_FUNC_UNIQUE}
+
+// fmtAPIAgg renders a public aggregation like fmtResult renders the internal one (values as floats).
+func fmtAPIAgg(a *seqproxyapi.Aggregation) string {
+	var bs []string
+	for _, b := range a.Buckets {
+		mid := int64(0)
+		if b.Ts != nil {
+			mid = b.Ts.AsTime().UnixMilli()
+		}
+		bs = append(bs, fmt.Sprintf("%d@%s@%s@%s@%d", mid, b.Key, fvalue(b.Value, nil), fnums(b.Quantiles), b.NotExists))
+	}
+	return fmt.Sprintf("%d#%s", a.NotExists, vh.JoinStrs(bs, ";"))
+}
+
+// runAPI sends one request through the handler layer and checks every aggregation / the histogram of the answer.
+func runAPI(rep *vh.Report, orc *vh.Oracle, srv seqproxyapi.SeqProxyApiServer, r apiReq, prefix string, all, rel []doc, base uint64) {
+	inRange := all
+	from, to := time.UnixMilli(0), time.UnixMilli(int64(base)).Add(time.Hour)
+	if r.to > 0 {
+		inRange = nil
+		for _, d := range all {
+			if d.mid >= base+r.from && d.mid <= base+r.to {
+				inRange = append(inRange, d)
+			}
+		}
+		from, to = time.UnixMilli(int64(base+r.from)), time.UnixMilli(int64(base+r.to))
+	}
+	query := &seqproxyapi.SearchQuery{Query: e2eQuery, From: timestamppb.New(from), To: timestamppb.New(to)}
+	var aggs []*seqproxyapi.AggQuery
+	for _, a := range r.aggs {
+		q := &seqproxyapi.AggQuery{Func: apiFuncs[a.fn], Quantiles: qfloats(a.qs)}
+		if a.group {
+			q.GroupBy = "g"
+		}
+		if a.fn != "count" && a.fn != "unique" {
+			q.Field = "f"
+		}
+		if a.interval > 0 {
+			iv := fmt.Sprintf("%dms", a.interval)
+			q.Interval = &iv
+		}
+		aggs = append(aggs, q)
+	}
+	var hist *seqproxyapi.HistQuery
+	if r.hist > 0 {
+		hist = &seqproxyapi.HistQuery{Interval: fmt.Sprintf("%dms", r.hist)}
+	}
+	key := fmt.Sprintf("e2eapi %s %s docs=%s", prefix, r.String(), fmtDocs(rel))
+	ctx, cancel := context.WithTimeout(context.Background(), 30*time.Second)
+	defer cancel()
+	var gotAggs []*seqproxyapi.Aggregation
+	var gotHist *seqproxyapi.Histogram
+	var err error
+	var apiErr *seqproxyapi.Error
+	order := seqproxyapi.Order_ORDER_DESC
+	if r.order == seq.DocsOrderAsc {
+		order = seqproxyapi.Order_ORDER_ASC
+	}
+	switch r.kind {
+	case "complex":
+		var resp *seqproxyapi.ComplexSearchResponse
+		resp, err = srv.ComplexSearch(ctx, &seqproxyapi.ComplexSearchRequest{Query: query, Aggs: aggs, Hist: hist, Size: 3, Order: order, WithTotal: true})
+		if resp != nil {
+			gotAggs, gotHist, apiErr = resp.Aggs, resp.Hist, resp.Error
+		}
+	case "getagg":
+		var resp *seqproxyapi.GetAggregationResponse
+		resp, err = srv.GetAggregation(ctx, &seqproxyapi.GetAggregationRequest{Query: query, Aggs: aggs})
+		if resp != nil {
+			gotAggs, apiErr = resp.Aggs, resp.Error
+		}
+	default:
+		var resp *seqproxyapi.GetHistogramResponse
+		resp, err = srv.GetHistogram(ctx, &seqproxyapi.GetHistogramRequest{Query: query, Hist: hist})
+		if resp != nil {
+			gotHist, apiErr = resp.Hist, resp.Error
+		}
+	}
+	mixed := false
+	for _, a := range r.aggs {
+		mixed = mixed || (a.interval > 0) != (r.aggs[0].interval > 0)
+	}
+	orc.Case(key, len(r.aggs) >= 2, "layer=proxyapi", "api="+r.kind, fmt.Sprintf("api-aggs=%d", len(r.aggs)), "mixed-interval="+vh.B(mixed))
+	if err != nil || (apiErr != nil && apiErr.Code != seqproxyapi.ErrorCode_ERROR_CODE_NO) {
+		rep.Violate(vh.Violation{Site: "proxyapi/grpc_v1.go:doSearch", Class: "agg-error-on-valid-input", What: fmt.Sprintf("%v %v", err, apiErr), Replay: []string{key}})
+		return
+	}
+	if r.kind != "gethist" {
+		if len(gotAggs) != len(r.aggs) {
+			rep.Violate(vh.Violation{Site: "proxyapi/grpc_complex_search.go:ComplexSearch", Class: "aggregation-count-differs", What: fmt.Sprintf("%d aggregations for %d queries", len(gotAggs), len(r.aggs)), Replay: []string{key}})
+			return
+		}
+		for i, a := range r.aggs {
+			skip := a.interval > 0 // per aggregation: aggregationArgsFromProto
+			got := fmtAPIAgg(gotAggs[i])
+			want := expectedBucketsF([][]doc{inRange}, a, skip)
+			if got != want {
+				site, class := classify([][]doc{inRange}, a, skip, got, want)
+				if class == "agg-value-differs-from-documents" {
+					site, class = "proxyapi/grpc_complex_search.go:aggregationArgsFromProto", "api-aggregation-differs-from-documents"
+				}
+				rep.Violate(vh.Violation{Site: site, Class: class,
+					What: fmt.Sprintf("proxyapi %s, aggregation %d of %d (%s): got %s want %s", r.kind, i+1, len(r.aggs), a.String(), shiftMids(got, base), shiftMids(want, base)), Replay: []string{key}})
+			}
+		}
+	}
+	if r.hist > 0 && r.kind != "getagg" {
+		want := map[seq.MID]uint64{}
+		for _, d := range inRange {
+			if d.match {
+				want[seq.MID(d.mid-d.mid%r.hist)]++
+			}
+		}
+		got := map[seq.MID]uint64{}
+		if gotHist != nil {
+			for _, b := range gotHist.Buckets {
+				got[seq.MID(b.Ts.AsTime().UnixMilli())] += b.DocCount
+			}
+		}
+		if fmtHist(got) != fmtHist(want) {
+			rep.Violate(vh.Violation{Site: "proxyapi/grpc_v1.go:makeProtoHistogram", Class: "histogram-differs-from-documents",
+				What: fmt.Sprintf("proxyapi %s: got %d buckets want %d buckets", r.kind, len(got), len(want)), Replay: []string{key}})
+		}
+	}
+}
+
 type e2eQ struct {
 	a     aggq
 	hist  uint64
@@ -1723,7 +1887,7 @@ type e2eQ struct {
 
 // e2eEnv brings up one environment, ingests the batches (document MIDs are offsets in ms from a base minute a few
 // minutes in the past), seals where asked, runs the queries and checks every answer against the documents.
-func e2eEnv(rep *vh.Report, orc *vh.Oracle, shards int, limits limSpec, batches [][]doc, sealAfter []bool, queries []e2eQ) {
+func e2eEnv(rep *vh.Report, orc *vh.Oracle, shards int, limits limSpec, batches [][]doc, sealAfter []bool, queries []e2eQ, apis []apiReq) {
 	dir, err := os.MkdirTemp("", "c06-e2e-")
 	if err != nil {
 		orc.Error = err.Error()
@@ -1733,6 +1897,7 @@ func e2eEnv(rep *vh.Report, orc *vh.Oracle, shards int, limits limSpec, batches 
 	cfg := &setup.TestingEnvConfig{Name: "c06", DataDir: dir, IngestorCount: 1, HotShards: shards, HotFactor: 1,
 		Mapping: seq.Mapping{
 			"m": seq.NewSingleType(seq.TokenizerTypeKeyword, "", 0),
+			"n": seq.NewSingleType(seq.TokenizerTypeKeyword, "", 0),
 			"g": seq.NewSingleType(seq.TokenizerTypeKeyword, "", 0),
 			"f": seq.NewSingleType(seq.TokenizerTypeKeyword, "", 0),
 		}}
@@ -1755,7 +1920,19 @@ func e2eEnv(rep *vh.Report, orc *vh.Oracle, shards int, limits limSpec, batches 
 		for _, d := range docs {
 			abs := d
 			abs.mid = base + d.mid
-			m := map[string]string{"m": vh.B(d.match), "ts": time.UnixMilli(int64(abs.mid)).UTC().Format(time.RFC3339Nano)}
+			// the query is `m:1 or n:a*`: a matching document satisfies the first operand, the second (a wildcard leaf
+			// over two tokens), or both - the operands overlap
+			m := map[string]string{"m": "0", "n": "b1", "ts": time.UnixMilli(int64(abs.mid)).UTC().Format(time.RFC3339Nano)}
+			if d.match {
+				switch (len(all) + int(d.mid/250)) % 3 {
+				case 0:
+					m["m"], m["n"] = "1", "b0"
+				case 1:
+					m["n"] = "a1"
+				default:
+					m["m"], m["n"] = "1", "a2"
+				}
+			}
 			if len(d.g) > 0 {
 				m["g"] = d.g[0]
 			}
@@ -1783,6 +1960,13 @@ func e2eEnv(rep *vh.Report, orc *vh.Oracle, shards int, limits limSpec, batches 
 		}
 	}
 	env.WaitIdle()
+	if !limits.small() && len(apis) > 0 {
+		srv := proxyapi.VerifNewGrpcV1C16(env.Ingestor().Ingestor.SearchIngestor, 30*time.Second)
+		prefix := fmt.Sprintf("shards=%d sealed=%d lim=%s", shards, sealed, limits)
+		for _, r := range apis {
+			runAPI(rep, orc, srv, r, prefix, all, rel, base)
+		}
+	}
 	for _, q := range queries {
 		a := q.a
 		aq := psearch.AggQuery{Func: fnOf(a.fn), Quantiles: qfloats(a.qs), Interval: seq.MID(a.interval)}
@@ -1813,7 +1997,7 @@ func e2eEnv(rep *vh.Report, orc *vh.Oracle, shards int, limits limSpec, batches 
 			qpr, err = asyncSearch(env, aq, q, base)
 		} else {
 			q.async = false
-			qpr, _, _, err = env.Search("m:1", 5, opts...)
+			qpr, _, _, err = env.Search(e2eQuery, 5, opts...)
 		}
 		// the case key uses offsets from the base minute, not wall-clock time
 		key := fmt.Sprintf("e2e shards=%d sealed=%d lim=%s async=%s %s hist=%d order=%d range=%d-%d docs=%s", shards, sealed, limits, vh.B(q.async), a.String(), q.hist, q.order, q.from, q.to, fmtDocs(rel))
@@ -1881,7 +2065,7 @@ func asyncSearch(env *setup.TestingEnv, aq psearch.AggQuery, q e2eQ, base uint64
 	}
 	ctx, cancel := context.WithTimeout(context.Background(), 30*time.Second)
 	defer cancel()
-	resp, err := searcher.StartAsyncSearch(ctx, psearch.AsyncRequest{Query: "m:1", From: from, To: to, Order: q.order,
+	resp, err := searcher.StartAsyncSearch(ctx, psearch.AsyncRequest{Query: e2eQuery, From: from, To: to, Order: q.order,
 		Aggregations: []psearch.AggQuery{aq}, HistogramInterval: seq.MID(q.hist)})
 	if err != nil {
 		return nil, fmt.Errorf("start async: %w", err)
@@ -1926,6 +2110,9 @@ func e2eChild(o vh.Opts) {
 		for _, l := range lines {
 			if strings.HasPrefix(l, "e2e ") {
 				replayE2E(l, rep, orc)
+			}
+			if strings.HasPrefix(l, "e2eapi ") {
+				replayE2EAPI(l, rep, orc)
 			}
 		}
 		rep.AddOracle(orc)
@@ -1985,10 +2172,87 @@ func e2eChild(o vh.Opts) {
 		for _, ord := range []seq.DocsOrder{seq.DocsOrderDesc, seq.DocsOrderAsc} {
 			qs = append(qs, e2eQ{a: aggq{fn: "count", group: true}, hist: 1000, order: ord, async: true})
 		}
-		e2eEnv(rep, orc, shards, limits, batches, sealAfter, qs)
+		e2eEnv(rep, orc, shards, limits, batches, sealAfter, qs, genAPIs(rng, o.Pick(4, 10), huge))
 	}
 	rep.AddOracle(orc)
 	rep.Write(o.Out)
+}
+
+
+// genAPIs: requests for the public handlers; the first one always mixes an aggregation with a time interval and
+// aggregations without one (several group-bys / functions) in ONE ComplexSearch request.
+func genAPIs(r *vh.RNG, n int, huge bool) []apiReq {
+	fix := func(a aggq) aggq {
+		if a.interval > 0 {
+			a.interval = int64([]int{1000, 2500, 15000}[r.Intn(3)])
+		} else {
+			a.interval = 0
+		}
+		if a.fn == "unique" {
+			a.interval = 0
+		}
+		if huge && a.fn == "avg" {
+			a.fn = "max"
+		}
+		return a
+	}
+	var res []apiReq
+	for i := 0; i < n; i++ {
+		req := apiReq{kind: []string{"complex", "complex", "getagg", "gethist"}[r.Intn(4)], order: seq.DocsOrder(r.Intn(2)), hist: uint64([]int{0, 1000, 20000}[r.Intn(3)])}
+		if i == 0 {
+			req.kind = "complex"
+		}
+		if req.kind == "gethist" && req.hist == 0 {
+			req.hist = 1000
+		}
+		if req.kind != "gethist" {
+			for k := r.Range(2, 4); k > 0; k-- {
+				req.aggs = append(req.aggs, fix(genAggs(r)[0]))
+			}
+			if i == 0 {
+				req.aggs[0].interval, req.aggs[1].interval = 1000, 0
+				if req.aggs[0].fn == "unique" {
+					req.aggs[0].fn = "count"
+				}
+			}
+		}
+		if r.Chance(1, 3) {
+			req.from = uint64(r.Intn(160)) * 250
+			req.to = req.from + uint64(r.Range(4, 120))*250
+		}
+		res = append(res, req)
+	}
+	return res
+}
+
+// replayE2EAPI re-runs one request through the public handlers.
+func replayE2EAPI(line string, rep *vh.Report, orc *vh.Oracle) {
+	f := strings.Fields(line)
+	if len(f) != 10 {
+		return
+	}
+	shards, _ := strconv.Atoi(strings.TrimPrefix(f[1], "shards="))
+	sealed, _ := strconv.Atoi(strings.TrimPrefix(f[2], "sealed="))
+	limits := limSpec(strings.TrimPrefix(f[3], "lim="))
+	req := apiReq{kind: f[4]}
+	if as := strings.TrimPrefix(f[5], "aggs="); as != "-" {
+		for _, a := range strings.Split(as, ";") {
+			req.aggs = append(req.aggs, parseAggq(a))
+		}
+	}
+	req.hist, _ = strconv.ParseUint(strings.TrimPrefix(f[6], "hist="), 10, 64)
+	ord, _ := strconv.Atoi(strings.TrimPrefix(f[7], "order="))
+	req.order = seq.DocsOrder(ord)
+	fmt.Sscanf(strings.TrimPrefix(f[8], "range="), "%d-%d", &req.from, &req.to)
+	docs := parseDocs(strings.TrimPrefix(f[9], "docs="))
+	nb := sealed + 1
+	var batches [][]doc
+	var sealAfter []bool
+	for b := 0; b < nb; b++ {
+		batches = append(batches, docs[len(docs)*b/nb:len(docs)*(b+1)/nb])
+		sealAfter = append(sealAfter, b+1 < nb)
+	}
+	e2eEnv(rep, orc, shards, limits, batches, sealAfter, nil, []apiReq{req})
 }
 
 // replayE2E re-runs one end-to-end case: the documents are split evenly over sealed+1 batches.
@@ -2014,7 +2278,7 @@ func replayE2E(line string, rep *vh.Report, orc *vh.Oracle) {
 		batches = append(batches, docs[len(docs)*b/nb:len(docs)*(b+1)/nb])
 		sealAfter = append(sealAfter, b+1 < nb)
 	}
-	e2eEnv(rep, orc, shards, limits, batches, sealAfter, []e2eQ{{a, hist, seq.DocsOrder(ord), from, to, async}})
+	e2eEnv(rep, orc, shards, limits, batches, sealAfter, []e2eQ{{a, hist, seq.DocsOrder(ord), from, to, async}}, nil)
 }
 
 // e2eParent re-executes this binary for the end-to-end oracle so that a Fatal / panic / hang inside the stores
@@ -2152,7 +2416,7 @@ func main() {
 				ch.Add(l, runSCOps(strings.Split(f[2], ";"), f[1] == "len"), true)
 			} else if strings.HasPrefix(l, "as.tree ") && i+1 < len(lines) && strings.HasPrefix(lines[i+1], "tree2 ") {
 				replayTree(l, lines[i+1], rep, mo)
-			} else if strings.HasPrefix(l, "e2e ") {
+			} else if strings.HasPrefix(l, "e2e ") || strings.HasPrefix(l, "e2eapi ") {
 				hasE2E = true
 			} else if strings.HasPrefix(l, "codec ") {
 				replayCodec(l, rep, mo)
